@@ -830,42 +830,48 @@ def replace_mode():
     return not copy_mode() and cli_has_replace() and len(cli_replace()) > 0 and cli_has_values() and len(cli_values()) > 0
 
 
+class copy_from_to_cli(copy_from_to):
+    """copy_from_to as main() must use it.  Same contract with *more* preconditions (so implied by the proved one): the actual
+    arguments of the call are the content of the input file and the command-line values - these become the data-flow
+    obligations call[..]->copy_from_to.requires.1..4 of main.  Ghost results: R = the returned string, called = True."""
+    requires = copy_from_to.requires + ["file_content == file_text(cli_input())", "category == cli_category()",
+                                        "copy_from == cli_copy_from()", "copy_to == cli_copy_to()"]
+    ghost_returns = {"W": "int", "R": "str", "called": "bool"}
+    ensures = ["R == result", "called"]
+    ensures_labels = {}
+
+
+class replace_value_cli(replace_value):
+    """replace_value as main() must use it (see copy_from_to_cli); R = the first component of the result.  The proved
+    postcondition is not needed by main (and its len(result[1]) clauses could not be evaluated at a call site, where the
+    result dict carries no insertion order)."""
+    requires = replace_value.requires + ["file_content == file_text(cli_input())", "category == cli_category()",
+                                         "column == cli_replace()", "values == cli_values()"]
+    ghost_returns = {"W": "int", "R": "str", "called": "bool"}
+    ensures = ["R == result[0]", "called"]
+    ensures_labels = {}
+
+
 class main:
     """data flow of the command-line tool: the library is called with the *content* of the input file and the command-line
-    values, and the text written to the output path is the library's string result"""
+    values (call-site obligations, see the @cli variants), and the text written to the output path is the library's string result"""
     params = {}
-    callee_variants = {"replace_value": "cli"}
+    callee_variants = {"copy_from_to": "cli", "replace_value": "cli"}
     requires = ["wellformed(parse(file_text(cli_input())))",
                 "cli_has_category()",
                 "implies(replace_mode(), enough_values(parse(file_text(cli_input())), cli_category(), cli_replace(), cli_values()))"]
     raises = ["SystemExit", "OSError"]
     modifies = GHOST_FIELDS + LIST_FIELDS
-    ghost_entry = ["let wrote = False", "let out_path = ''", "let out_text = ''", "let lib_fn = 0", "let lib_res = ''",
-                   "let lib_a0 = ''", "let lib_a1 = ''", "let lib_a2 = ''", "let lib_a3 = ''"]
+    ghost_entry = ["let wrote = False", "let out_path = ''", "let out_text = ''",
+                   "let copy_from_to_called = False", "let copy_from_to_R = ''", "let replace_value_called = False", "let replace_value_R = ''"]
     ensures = [
-        "implies(copy_mode(), lib_fn == 1 and lib_a0 == file_text(cli_input()) and lib_a1 == cli_category() and lib_a2 == cli_copy_from() and lib_a3 == cli_copy_to())",
-        "implies(replace_mode(), lib_fn == 2 and lib_a0 == file_text(cli_input()) and lib_a1 == cli_category() and lib_a2 == cli_replace() and lib_a3 == cli_values())",
-        "implies(copy_mode() or replace_mode(), wrote and out_path == cli_output() and out_text == lib_res)",
+        "implies(copy_mode(), copy_from_to_called and wrote and out_path == cli_output() and out_text == copy_from_to_R)",
+        "implies(replace_mode(), replace_value_called and wrote and out_path == cli_output() and out_text == replace_value_R)",
         "implies(not copy_mode() and not replace_mode(), not wrote)",
     ]
-    ensures_labels = {0: "copy-mode-library-gets-file-content-and-arguments", 1: "replace-mode-library-gets-file-content-and-arguments",
-                      2: "output-file-holds-the-library-string-result", 3: "no-mode-nothing-written"}
-    ghost = [
-        {"when": "after", "at": "output = copy_from_to(", "label": "copy-call",
-         "do": ["let lib_fn = 1", "let lib_res = output", "let lib_a0 = content", "let lib_a1 = args.category", "let lib_a2 = args.copy_from",
-                "let lib_a3 = args.copy_to"]},
-        {"when": "after", "at": "output, _ = replace_value(", "label": "replace-call",
-         "do": ["let lib_fn = 2", "let lib_res = output", "let lib_a0 = content", "let lib_a1 = args.category", "let lib_a2 = args.replace",
-                "let lib_a3 = args.values"]},
-    ]
+    ensures_labels = {0: "copy-mode-output-file-holds-the-library-result", 1: "replace-mode-output-file-holds-the-library-string-result",
+                      2: "no-mode-nothing-written"}
 
 
-class replace_value_cli(replace_value):
-    """replace_value as main() uses it: the same preconditions, no postcondition (main only moves the result around).  Weaker than
-    the proved contract above, hence not a further assumption.  (Needed because a contract call's result dict carries no
-    insertion order, so the len(result[1]) clauses cannot be evaluated at a call site.)"""
-    ensures = []
-    ensures_labels = {}
-
-
-CONTRACTS = {"copy_from_to": copy_from_to, "replace_value": replace_value, "replace_value@cli": replace_value_cli, "main": main}
+CONTRACTS = {"copy_from_to": copy_from_to, "replace_value": replace_value, "main": main,
+             "copy_from_to@cli": copy_from_to_cli, "replace_value@cli": replace_value_cli}
